@@ -109,32 +109,39 @@ func (r *NetconfResponse) Record(b []byte) {
 
 	r.RawResult = b
 
-	if util.ByteContainsAny(r.RawResult, r.FailedWhenContains) {
-		patterns := getNetconfPatterns()
-
-		r.Failed = &OperationError{
-			Input:       string(r.Input),
-			Output:      r.Result,
-			ErrorString: string(patterns.rpcErrors.Find(r.RawResult)),
-		}
-
-		for _, rpcerr := range patterns.rpcSingleErrors.FindAll(r.RawResult, -1) {
-			errStr := string(rpcerr)
-
-			switch {
-			case strings.Contains(errStr, "<error-severity>error</error-severity>"):
-				r.ErrorMessages = append(r.ErrorMessages, errStr)
-			case strings.Contains(errStr, "<error-severity>warning</error-severity>"):
-				r.WarningErrorMessages = append(r.WarningErrorMessages, errStr)
-			}
-		}
-	}
+	r.recordFailed(r.RawResult)
 
 	switch r.NetconfVersion {
 	case v1Dot0:
 		r.record1dot0()
 	case v1Dot1:
 		r.record1dot1()
+	}
+}
+
+// recordFailed marks the response failed if any of the FailedWhenContains markers is in b.
+func (r *NetconfResponse) recordFailed(b []byte) {
+	if !util.ByteContainsAny(b, r.FailedWhenContains) {
+		return
+	}
+
+	patterns := getNetconfPatterns()
+
+	r.Failed = &OperationError{
+		Input:       string(r.Input),
+		Output:      r.Result,
+		ErrorString: string(patterns.rpcErrors.Find(b)),
+	}
+
+	for _, rpcerr := range patterns.rpcSingleErrors.FindAll(b, -1) {
+		errStr := string(rpcerr)
+
+		switch {
+		case strings.Contains(errStr, "<error-severity>error</error-severity>"):
+			r.ErrorMessages = append(r.ErrorMessages, errStr)
+		case strings.Contains(errStr, "<error-severity>warning</error-severity>"):
+			r.WarningErrorMessages = append(r.WarningErrorMessages, errStr)
+		}
 	}
 }
 
@@ -156,6 +163,13 @@ func (r *NetconfResponse) record1dot1() {
 			Output:      r.Result,
 			ErrorString: err.Error(),
 		}
+
+		return
+	}
+
+	if r.Failed == nil {
+		// a marker cut by a chunk boundary is only visible in the decoded payload
+		r.recordFailed([]byte(r.Result))
 	}
 }
 
